@@ -56,7 +56,12 @@ _scratch_pid = None
 
 def _make_scratch():
     global _scratch, _scratch_pid
-    base = "/dev/shm" if os.path.isdir("/dev/shm") and os.access("/dev/shm", os.W_OK) else tempfile.gettempdir()
+    if _scratch is not None and _scratch_pid is not None and _scratch_pid != os.getpid() and os.path.isdir(_scratch):
+        # forked pool worker: its exit skips atexit, so it works in a sub-directory of the parent's
+        # scratch directory, which the parent removes
+        base = _scratch
+    else:
+        base = "/dev/shm" if os.path.isdir("/dev/shm") and os.access("/dev/shm", os.W_OK) else tempfile.gettempdir()
     _scratch = tempfile.mkdtemp(prefix="cbverif_", dir=base)
     _scratch_pid = os.getpid()
     import atexit
@@ -236,6 +241,7 @@ def run_property(pid: str, tier: str, seed: int) -> int:
     else:
         ctx = mp.get_context("fork")
         chunk = max(1, min(64, len(items) // (nproc * 8)))
+        scratch_dir()  # created before the fork so that the workers nest theirs inside it
         with ctx.Pool(nproc, initializer=_worker_init, initargs=(pid,)) as pool:
             for idx, res in pool.imap_unordered(_worker_run, items, chunksize=chunk):
                 results[idx] = res
